@@ -331,6 +331,15 @@ pub fn base_packets(seed: u64) -> Vec<Vec<u8>> {
     v.push(frame(0x11, 0x22, 0x11, 0x22, FLAGS_REQ, TY_PCI, &rng.bytes(249)));
     v.push(ctrl_response(0x11, 0x22, 1, 0x05, 0, &rng.bytes(246)));
     v.push(ctrl_request(0x11, 0x22, 1, false, 0x03, &rng.bytes(247)));
+    // longer than any SMBus packet (byte count wraps), PEC consistent over the whole string
+    for (ty, n) in [(TY_PCI, 290usize), (TY_SPDM, 515)] {
+        let mut p = frame(0x11, 0x22, 0x11, 0x22, FLAGS_REQ, ty, &rng.bytes(n));
+        fix_count_and_pec(&mut p);
+        v.push(p);
+    }
+    let mut p = ctrl_request(0x11, 0x22, 1, false, 0x02, &rng.bytes(300));
+    fix_count_and_pec(&mut p);
+    v.push(p);
     v
 }
 
